@@ -1,21 +1,74 @@
-"""C06: a program's code is the concatenation of its lines' code, however it is fed (API layer)."""
-from vflib import gluechecks
+"""C06: a program's code is the concatenation of its lines' code, however it is fed."""
+import fnmatch
+import os
+
+from vflib import core, enc, families, gluechecks, glue, report
+
+ALONE_SRC = r'''
+#include <assemblyline.h>
+#include <stdio.h>
+#include <string.h>
+int main(int argc, char **argv) {
+  static unsigned char ref[64]; int reflen = -1;
+  for (int mv = 0; mv < 3; mv++) for (int sw = 0; sw < 2; sw++) for (int nb = 0; nb < 2; nb++) {
+    unsigned char buf[64]; memset(buf, 0, sizeof buf);
+    assemblyline_t al = asm_create_instance(buf, 64);
+    asm_mov_imm(al, mv); asm_sib_index_base_swap(al, sw); asm_sib_no_base(al, nb);
+    char line[200]; snprintf(line, sizeof line, "%s\n", argv[1]);
+    if (asm_assemble_str(al, line) != 0) { printf("REJECTED\n"); return 0; }
+    int n = asm_get_offset(al);
+    if (reflen < 0) { reflen = n; memcpy(ref, buf, n); }
+    else if (n != reflen || memcmp(ref, buf, n)) { printf("MODE-DEPENDENT\n"); return 0; }
+    asm_destroy_instance(al);
+  }
+  for (int i = 0; i < reflen; i++) printf("%02x", ref[i]);
+  printf("\n");
+  return 0;
+}
+'''
 
 
 def run(tier, only=None):
+    quick = tier == "quick"
     q = [{"name": "c06.concat_split.k2", "cfile": "glue_c06.c",
           "defs": ["-DKMAX=2", "-DNPROG=1", "-DGBUF=40", "-DLMAX=4", "-DNFIXED=1", "-DSTARTMAX=6"]},
          {"name": "c06.concat_split.k3", "cfile": "glue_c06.c",
           "defs": ["-DKMAX=3", "-DNPROG=1", "-DGBUF=48", "-DLMAX=3", "-DNFIXED=1", "-DSTARTMAX=4"], "timeout": 1500}]
-    if tier != "quick":
+    if not quick:
         q.append({"name": "c06.concat_split.k4", "cfile": "glue_c06.c",
                   "defs": ["-DKMAX=4", "-DNPROG=1", "-DGBUF=56", "-DLMAX=3", "-DNFIXED=1", "-DSTARTMAX=4"], "timeout": 3600})
         q.append({"name": "c06.concat_split.room", "cfile": "glue_c06.c",
                   "defs": ["-DKMAX=2", "-DNPROG=1", "-DGBUF=40", "-DLMAX=4", "-DSTARTMAX=40"], "timeout": 3600})
-    return gluechecks.run_queries(
-        "C06", tier, q,
-        "program of up to K abstract lines (skip or instruction of arbitrary length <= LMAX and arbitrary bytes), start offset, all 12 option combinations, arbitrary prior buffer contents, arbitrary split point at a line boundary",
-        {"K": "2..3 (thorough 4)", "LMAX": "3..4 signature bytes per instruction in these content queries", "start_offset": "0..6",
-         "outside": "line content vs line-alone equality for real instruction text is the ENC pair family (C06 query C, DESIGN.md), not this API-layer query"},
-        "one CBMC query per K: one call vs. two calls split at a symbolic line boundary, on two instances",
-        ["the only state assemble_all carries between lines is (text pointer, buffer position): both are symbolic here"], only)
+    rep = report.Report("C06", tier, "model_checking")
+    # --- API layer with abstract lines ---------------------------------
+    ge = glue.GlueEngine("C06", tier)
+    gq = [x for x in q if not only or fnmatch.fnmatch(x["name"], only)]
+
+    def gjob(x):
+        uw = dict(gluechecks.UW)
+        return ge.run(x["name"], x["cfile"], defs=x["defs"], unwind=20, unwindset=uw, timeout=x.get("timeout"))
+    rep.add(core.pmap(gjob, gq))
+    # --- real lines in context: a concrete line followed by a skeleton line in one call ---
+    eng = enc.EncEngine("C06", tier)
+    drv = os.path.join(eng.wd, "alone.c")
+    with open(drv, "w") as f:
+        f.write(ALONE_SRC)
+    exe = core.build_native(eng.wd, "alone", [drv] + core.repo_sources())
+
+    def alone(text):
+        rc, out, err, _, _ = core.run([exe, text], timeout=10, limit=False)
+        out = out.strip()
+        if rc != 0 or not out or not all(c in "0123456789abcdef" for c in out):
+            return None
+        return bytes.fromhex(out)
+    sks = families.c06_context_families(quick, alone)
+    if only:
+        sks = [s for s in sks if fnmatch.fnmatch(s.name, only)]
+    rep.add(eng.run_family(sks))
+    return rep.finish(
+        {"symbolic_per_query": "API layer: program of up to K abstract lines (skip or instruction of arbitrary length and bytes), start offset, all 12 option combinations, arbitrary prior buffer contents, arbitrary split point at a line boundary. Context: a concrete first line (14 encoding classes) followed in the same call by a skeleton line with symbolic registers/numbers/options; the first line's bytes are those it yields alone (computed natively, identical under all options) and the second line decodes as written",
+         "context_lines": families.CONTEXT_LINES, "context_queries": len(sks), "api_queries": [x["name"] for x in gq]},
+        glue.GLUE_ASSUMPTIONS + enc.ENC_ASSUMPTIONS[:5],
+        {"K": "2..3 (thorough 4)", "context_pairs": len(sks), "outside": "programs of more than two real lines in the context family (the API-layer query is inductive over lines: the only state carried between lines is the text pointer and the buffer position; the context family checks that no per-line encoder state survives from one line to the next)"},
+        "CBMC queries: one call vs. two calls split at a symbolic line boundary on abstract lines; ordered pairs (concrete line, skeleton line) through the whole real pipeline",
+        gluechecks.FUNCS + ["str_to_instr", "line_to_instr", "encode_operands", "assemble_asm"])
